@@ -200,8 +200,17 @@ class Executor(ExprMixin, CallMixin):
         """EXC-ANY: an un-contracted call may raise any subclass of Exception."""
         t, c = self.uni.any_exception()
         s2 = st.fork().assume(c)
+        if not self.abstract:
+            s2.assume(z3.Bool(f"__havoc__@{site}"[:120]))      # exact mode: "may raise anything" is an over-approximation, see tag_havoc
         self.raise_in(s2, VExc(t, {"site": site}))
         self.exc_any_sites.append(site)
+
+    def tag_havoc(self, st: State, what: str, node=None):
+        """Exact mode: the path now depends on a value the engine made up for something it has no model for (an unknown's truth value,
+        a comparison with an unknown, membership in an unknown container, an opaque string).  A VC refuted on a tagged path is
+        reported `unknown` (verify.discharge): only a natively replayed input can make it a violation."""
+        if not self.abstract:
+            st.assume(z3.Bool(f"__havoc__@{self.loc(node) if node is not None else '?'} {what}"[:120]))
 
     def fork_truth(self, st: State, v: V):
         """-> [(state, bool)] for the feasible truth values of v."""
